@@ -64,6 +64,11 @@ pub const JSON_HAND: &[&str] = &[
     "-0",
     "1e19",
     "\"s \\u00e9 \\ud834\\udd1e\"",
+    "{\"_kind\":\"grid\",\"cols\":[],\"rows\":[{}]}",
+    "{\"_kind\":\"grid\",\"meta\":{\"ver\":\"3.0\"},\"cols\":[],\"rows\":[]}",
+    "{\"_kind\":\"grid\",\"meta\":{\"ver\":\"3.0\"},\"cols\":[{\"name\":\"a\"}],\"rows\":[{},{\"a\":null},{\"b\":1}]}",
+    "[{},{}]",
+    "[[],{},[[]],[{}]]",
     "{\"_kind\":\"dateTime\",\"val\":\"0021-06-05T09:56:09-07:53\",\"tz\":\"Los_Angeles\"}",
     "{\"_kind\":\"dateTime\",\"val\":\"1937-06-05T09:56:09+00:20\",\"tz\":\"Amsterdam\"}",
     "{\"_kind\":\"marker\"}",
